@@ -25,14 +25,14 @@ func (ex *Exec) argStr(st *State, v Value) string {
 }
 
 func (ex *Exec) freshInput(st *State, kind string, k Kind, w int) *Term {
-	t := ex.tt.Fresh("in_"+kind, k, w)
+	t := ex.tt.Var(fmt.Sprintf("in%d_%s", len(st.inputs), kind), k, w)
 	st.inputs = append(st.inputs, Input{kind: kind, t: t})
 	return t
 }
 
 func (ex *Exec) freshBytes(st *State, n int, asStr bool) SliceV {
 	tt := ex.tt
-	arr := tt.Fresh("buf", KArr, 0)
+	arr := tt.Var(fmt.Sprintf("buf%d_%d", len(st.inputs), n), KArr, 0)
 	e := make([]Value, n)
 	bs := make([]*Term, n)
 	for i := range e {
@@ -42,6 +42,16 @@ func (ex *Exec) freshBytes(st *State, n int, asStr bool) SliceV {
 	}
 	st.inputs = append(st.inputs, Input{kind: "bytes", n: n, bs: bs})
 	fn := func(i *Term) *Term { return tt.Select(arr, tt.Extract(i, 31, 0)) }
+	if n <= ex.smallBuf {
+		// small buffers: independent byte variables and ite chains are cheaper
+		// for the solver than array theory
+		fn = nil
+		for i := range e {
+			t := tt.Var(fmt.Sprintf("b%d_%d_%d", len(st.inputs), n, i), KBV, 8)
+			e[i] = t
+			bs[i] = t
+		}
+	}
 	id := st.alloc(nil, &ArrayV{e: e, fn: fn}, "input")
 	nt := tt.BV(uint64(n), 64)
 	return SliceV{obj: id, off: tt.BV(0, 64), len: nt, cap: nt, str: asStr}
@@ -186,7 +196,7 @@ func (ex *Exec) registerIntrinsics() {
 		if f.IsConst() {
 			return ret1(st, tt.BV(f.c, 64))
 		}
-		b := tt.Fresh("fbits", KBV, 64)
+		b := ex.freshAux(st, "fbits", KBV, 64)
 		ex.assume(st, tt.BOr(tt.FIsNaN(f), tt.Eq(tt.FFromBits(b), f)))
 		// structural identity for +0/-0: fp.eq is not enough; use SMT "=".
 		ex.assume(st, tt.mk(&Term{op: OEq, kind: KBool, a: []*Term{tt.FFromBits(b), f}}))
@@ -283,8 +293,8 @@ func (ex *Exec) registerIntrinsics() {
 			} else {
 				v = ex.freshInput(st, "stub64", KBV, w)
 			}
-			st.inputs = append(st.inputs, Input{kind: "choice", n: 0})
-			s2.inputs = append(s2.inputs, Input{kind: "choice", n: 1})
+			st.inputs = append(st.inputs, Input{kind: "stubchoice", n: 0})
+			s2.inputs = append(s2.inputs, Input{kind: "stubchoice", n: 1})
 			var zero Value = tt.BV(0, w)
 			if kind == KFP {
 				zero = tt.FP(0)
@@ -314,8 +324,8 @@ func (ex *Exec) registerIntrinsics() {
 		ex.assumes["time.Unix/time.Parse are stubs returning the zero time.Time"] = true
 		z := ex.zero(call.Signature().Results().At(0).Type())
 		s2 := st.clone()
-		st.inputs = append(st.inputs, Input{kind: "choice", n: 0})
-		s2.inputs = append(s2.inputs, Input{kind: "choice", n: 1})
+		st.inputs = append(st.inputs, Input{kind: "stubchoice", n: 0})
+		s2.inputs = append(s2.inputs, Input{kind: "stubchoice", n: 1})
 		return []Outcome{{st: st, ret: TupleV{z, IfaceV{}}}, {st: s2, ret: TupleV{z, ex.newError(s2, "time: stub error")}}}
 	}
 	// unicode predicates: exact below 0x80 (executed from SSA for Latin-1 via
@@ -438,7 +448,7 @@ func (ex *Exec) stringsMap(_ *Exec, st *State, _ *ssa.CallCommon, a []Value) []O
 	// check f(r) == r for all r >= 0x80 (one symbolic call)
 	{
 		probe := st.clone()
-		r := tt.Fresh("maprune", KBV, 32)
+		r := ex.freshAux(probe, "maprune", KBV, 32)
 		ex.assume(probe, tt.Sle(tt.BV(0x80, 32), r))
 		ex.assume(probe, tt.Sle(r, tt.BV(0x10FFFF, 32)))
 		for _, o := range ex.callFunc(probe, f, []Value{r}, nil) {
